@@ -10,6 +10,10 @@ def call(mod, pb):
     return mod.solve_star_battle(pb["n"], pb["blocks"], pb["k"])
 
 
+def ncand(pb):
+    return 2 ** (pb['n'] * pb['n'])
+
+
 def encode(pb):
     return [[pb["n"], pb["k"]], L.flat(pb["blocks"])]
 
